@@ -226,6 +226,38 @@ def extract(repo):
         sst_consts(repo, out, grab)
     except OSError as ex:
         notes.append('sst: not extracted (%s)' % ex)
+    # lsmtk trash names and the manifest info keys the verifier reads (C08)
+    def c08():
+        l = read(repo, 'lsmtk/src/lib.rs')
+        v = read(repo, 'lsmtk/src/verifier.rs')
+        t = read(repo, 'lsmtk/src/tree/mod.rs')
+        mm = re.search(r'fn\s+TRASH_SST[^{]*\{\s*TRASH_ROOT\(root\)\.join\(setsum\.hexdigest\(\)\s*\+\s*"([^"]*)"\)', l)
+        if not mm:
+            raise Missing('TRASH_SST suffix')
+        grab('lsmtkTrashSstSuffix', lambda: [ord(c) for c in mm.group(1)])
+        ml = re.search(r'fn\s+TRASH_LOG[^{]*\{\s*TRASH_ROOT\(root\)\.join\(format!\("([^"{]*)\{number\}"\)\)', l)
+        if not ml:
+            raise Missing('TRASH_LOG prefix')
+        grab('lsmtkTrashLogPrefix', lambda: [ord(c) for c in ml.group(1)])
+        # the info keys: verify_one reads I, O, D and L of an edit, process_one writes O and M
+        def keys():
+            ks = sorted(set(re.findall(r"get_info\('(.)'\)", v)))
+            if not ks:
+                raise Missing("edit.get_info('?') in verifier.rs")
+            return [ord(k) for k in ks]
+        grab('lsmtkVerifierEditInfoKeys', keys)
+        def pops():
+            body = re.search(r'pub fn verify\(&mut self\)(.*?)for entry in entries', v, re.S)
+            if not body:
+                raise Missing('LsmVerifier::verify')
+            return len(re.findall(r'entries\.pop\(\)', body.group(1)))
+        grab('lsmtkVerifierEntriesPopped', pops)
+        # 1 = compaction_finish takes a reference to an output together with its link
+        grab('lsmtkCompactionPinsOutputs', lambda: 1 if re.search(r'references\s*\.\s*inc_then\(', t) else 0)
+    try:
+        c08()
+    except (Missing, OSError) as ex:
+        notes.append('c08: not extracted (%s)' % ex)
     def cf_words():
         c = read(repo, 'scrunch/src/bit_vector/cf_rrr.rs')
         return eval_int(const_int(c, 'PARAM_WORDS_PER_BLOCK'))
